@@ -166,6 +166,10 @@ def run(ck):
                 # Wyckoff sets of a non-reduced cell overlap: its symmetry group lacks the pure translations (C18 known
                 # finding c18-noreduce-nonprimitive); such a description is outside what the calculators accept
                 skipped["group-incomplete"] += 1; continue
+            jkeys = [(i, j, tuple(np.round(dx, 6))) for jl in jn2 for (i, j), dx in jl]
+            if len(set(jkeys)) != len(jkeys):
+                # a jump listed in two classes: the group of the non-reduced description is not closed (C18 known findings)
+                skipped["group-incomplete"] += 1; continue
             m = match(crys, chem, sl, jn, crys2, sl2, jn2)
             if m is None:
                 # jump multiset differs: only legitimate when the (incomplete) group of a non-reduced cell split classes inconsistently
